@@ -36,7 +36,10 @@ TRefRefused == IsEv("Ref") /\ Ev.r # "Ok" /\ RefRefused(Ev.len)
 AbsRec == [kind |-> Ev.kind, l |-> 0, addend |-> 0, sec |-> Ev.sec, at |-> Ev.at, len |-> Ev.len, immsz |-> 0, b |-> 0,
            immediate |-> FALSE, target |-> Ev.target, form |-> Ev.form]
 TAbsOk == IsEv("AbsRef") /\ Ev.r = "Ok" /\ Ev.i = Len(refs) + 1 /\ RefOk(AbsRec, Ev.sec, Ev.at)
-TAbsRefused == IsEv("AbsRef") /\ Ev.r # "Ok" /\ RefRefused(Ev.len)
+(* In 32-bit mode with the base address known every 32-bit target of jmp/call/jcc rel32 is representable (the displacement *)
+(* wraps modulo 2^32), so such a reference must not be refused.                                                          *)
+TAbsRefused == /\ IsEv("AbsRef") /\ Ev.r # "Ok" /\ RefRefused(Ev.len)
+               /\ ~(arch = "x86" /\ Ev.kind \in {"absjmp", "absjcc"} /\ Ev.bk)
 TReflatten == IsEv("Reflatten") /\ Reflattened(Ev.offs, Ev.unres)
 (* what JitRuntime::add installed is exactly the relocated image *)
 TAddrTab == IsEv("AddrTab") /\ AddrTable([present |-> Ev.present, off |-> Ev.off, bytes |-> Ev.bytes])
